@@ -6,7 +6,7 @@ RULE = ('same history generator as C01 with 2 partitions, trait bits on servers/
         'oracle A on every tuple of schedule() with a new server: up, right partition, traits, t+lease<valid_until; '
         'oracle B after every cycle on every placed instance: partition and traits (from the harness record). '
         'Non-trivial: history with an eviction, restore, renewal or a moved instance.')
-REQUIRED_REACH = {'*': ['evictions', 'put_restore', 'renew_ok']}
+REQUIRED_REACH = {'*': ['evictions', 'put_restore', 'renew_ok', 'reboot_requests_seen']}
 
 
 def _tweak(pf, rng):
